@@ -369,6 +369,11 @@ def edgeSign (x y : α) (e : (α × α) × (α × α)) : Int :=
     (if e.1.2 ≤ y ∧ y < e.2.2 then 1 else if e.2.2 ≤ y ∧ y < e.1.2 then -1 else 0)
   else 0
 
+/-- closed form of `is_point_inside_polygon` for an axis-parallel loop (`FV.C15.pip_closed_form`): the number of
+vertical edges strictly to the right of the point whose half-open `y`-range contains the point's ordinate. -/
+def rightCount (px py : α) (vs : List (α × α)) : Nat :=
+  (cycEdges vs).countP fun e => decide (e.1.1 = e.2.1) && spansY e py && decide (px < e.1.1)
+
 /-- signed number of vertical edges of the loop on the line `x` crossing the ordinate `y`. -/
 def winding (x y : α) (vs : List (α × α)) : Int :=
   sumInt vs.length fun i => match edgeAt vs i with | some e => edgeSign x y e | none => 0
